@@ -309,7 +309,8 @@ def decl_tokens(d, style):
     elif k == "impl":
         t += ["impl", d["protocol"], "for", d["type"]]
         if d["name"]:
-            if style.flag(0.8, True):
+            # 'impl p for S as {' reads 'as' as the keyword: a binding *named* "as" needs it spelled out
+            if d["name"] == "as" or style.flag(0.8, True):
                 t.append("as")
             t.append(d["name"])
         t.append("{")
